@@ -66,6 +66,9 @@ Next == \/ \E n \in 0..MaxN, s \in {"null", "data"} : PackBytes(n, s) \/ UnpackB
         \/ \E v \in V32 : PackS32le(v) \/ PackU32le(v)
         \/ UnpackChar \/ UnpackS8 \/ UnpackU8 \/ UnpackU16le \/ UnpackU32le \/ Rewind
 Spec == Init /\ [][Next]_vars
+(* rf_pack_init over exactly what has been consumed so far (pack, flip, unpack): the buffer is now the first p bytes *)
+Flip == /\ p <= size /\ size' = p /\ buf' = SubSeq(buf, 1, p) /\ p' = 0 /\ touched' = {i \in touched : i <= p}
+        /\ res' = <<>> /\ nops' = nops + 1
 InitSim == Init /\ size = MaxSize        \* simulation configuration: one buffer size, long operation sequences
 Bound == nops < MaxOps
 
